@@ -167,3 +167,259 @@ def mutants(rng, progs, dsl, k):
             q[i] = [0, rng.choice(heads)]            # replace an argument by a random leaf
             out.append(q)
     return out
+
+
+# ----------------------------------------------------------------------------
+# additions for the size / occurrence bounded grammars (C13)
+# ----------------------------------------------------------------------------
+def heads_of(dsl):
+    rargs, _ = arrow_parts(dsl["request"])
+    return [[0, n, pt] for n, pt in dsl["prims"]] + [[1, i, a] for i, a in enumerate(rargs)]
+
+
+def term_size(w):
+    if w[0] == 0:
+        return 1
+    return 1 + sum(term_size(a) for a in w[2:])
+
+
+def count_sized(dsl, target, size):
+    """Number of applicative terms (variables may be applied) of type target
+    with at most size nodes, forbidden patterns ignored."""
+    heads = heads_of(dsl)
+    memo = {}
+
+    def exact(t, n):
+        key = (repr(t), n)
+        if key in memo:
+            return memo[key]
+        memo[key] = 0
+        tot = 0
+        for h in heads:
+            args = ends_with(h[2], t)
+            if args is None:
+                continue
+            if not args:
+                tot += 1 if n == 1 else 0
+            elif n - 1 >= len(args):
+                tot += seq(tuple(repr(a) for a in args), args, n - 1)
+        memo[key] = tot
+        return tot
+
+    smemo = {}
+
+    def seq(key, args, n):
+        k = (key, n)
+        if k in smemo:
+            return smemo[k]
+        if len(args) == 1:
+            r = exact(args[0], n)
+        else:
+            r = 0
+            for m in range(1, n - len(args) + 2):
+                c = exact(args[0], m)
+                if c:
+                    r += c * seq(key[1:], args[1:], n - m)
+        smemo[k] = r
+        return r
+
+    return sum(exact(target, n) for n in range(1, size + 1))
+
+
+def terms_sized(dsl, target, size, rng, cap):
+    """Independent enumeration (randomly thinned) of the applicative terms of
+    type target with at most size nodes; forbidden patterns are ignored."""
+    heads = heads_of(dsl)
+    memo = {}
+
+    def exact(t, n):
+        key = (repr(t), n)
+        if key in memo:
+            return memo[key]
+        memo[key] = []
+        out = []
+        for h in heads:
+            args = ends_with(h[2], t)
+            if args is None:
+                continue
+            if not args:
+                if n == 1:
+                    out.append([0, h])
+            elif n - 1 >= len(args):
+                for c in seqs(args, n - 1):
+                    out.append([1, h] + c)
+        if len(out) > cap:
+            out = rng.sample(out, cap)
+        memo[key] = out
+        return out
+
+    def seqs(args, n):
+        if len(args) == 1:
+            return [[x] for x in exact(args[0], n)]
+        out = []
+        for m in range(1, n - len(args) + 2):
+            first = exact(args[0], m)
+            if not first:
+                continue
+            rest = seqs(args[1:], n - m)
+            if not rest:
+                continue
+            if len(first) * len(rest) > 4 * cap:
+                first = rng.sample(first, min(len(first), 12))
+                rest = rng.sample(rest, min(len(rest), max(1, 4 * cap // len(first))))
+            for x in first:
+                for r in rest:
+                    out.append([x] + r)
+        if len(out) > 4 * cap:
+            out = rng.sample(out, 4 * cap)
+        return out
+
+    out = []
+    for n in range(1, size + 1):
+        out += exact(target, n)
+    return out
+
+
+def type_cycle(dsl, skip_prim):
+    """A primitive id lying on a cycle of the "type t needs an argument of type a"
+    graph reachable from the request's return type when primitive skip_prim is
+    not used (variables included as heads), or None when that graph is acyclic:
+    then the terms with a bounded number of skip_prim are finitely many and
+    TTCFG.clean terminates."""
+    heads = [h for h in heads_of(dsl) if not (h[0] == 0 and h[1] == skip_prim)]
+    _, ret = arrow_parts(dsl["request"])
+    state = {}
+
+    def visit(t):
+        k = repr(t)
+        if state.get(k) == 1:
+            return True
+        if state.get(k) == 2:
+            return None
+        state[k] = 1
+        for h in heads:
+            args = ends_with(h[2], t)
+            if not args:
+                continue
+            for a in args:
+                r = visit(a)
+                if r is not None:
+                    return h if r is True else r
+        state[k] = 2
+        return None
+
+    # the skipped primitive's arguments are reachable as well
+    todo = [ret]
+    for n, pt in dsl["prims"]:
+        if n == skip_prim:
+            todo += arrow_parts(pt)[0]
+    for rargs in arrow_parts(dsl["request"])[0]:
+        todo += arrow_parts(rargs)[0]
+    for t in todo:
+        r = visit(t)
+        if r is not None:
+            return r
+    return None
+
+
+def terms_occ(dsl, target, prim, k, rng, cap, limit=4000):
+    """All applicative terms of type target with at most k occurrences of
+    primitive prim (requires type_cycle(dsl, prim) is None), thinned to cap per
+    (type, budget); returns None when more than limit terms would be built."""
+    heads = heads_of(dsl)
+    memo = {}
+    built = [0]
+
+    class TooBig(Exception):
+        pass
+
+    def go(t, budget, depth):
+        key = (repr(t), budget)
+        if key in memo:
+            return memo[key]
+        if depth > 40:
+            raise TooBig()
+        out = []
+        for h in heads:
+            args = ends_with(h[2], t)
+            if args is None:
+                continue
+            isp = h[0] == 0 and h[1] == prim
+            if isp and budget == 0:
+                continue
+            b = budget - (1 if isp else 0)
+            if not args:
+                out.append((([0, h]), 1 if isp else 0))
+                continue
+            combos = [([], 0)]
+            for a in args:
+                nxt = []
+                for c, used in combos:
+                    for (x, u) in go(a, b - used, depth + 1):
+                        if used + u <= b:
+                            nxt.append((c + [x], used + u))
+                combos = nxt
+                built[0] += len(combos)
+                if built[0] > limit * 20:
+                    raise TooBig()
+                if len(combos) > 4 * cap:
+                    combos = rng.sample(combos, 4 * cap)
+            for c, used in combos:
+                out.append(([1, h] + c, used + (1 if isp else 0)))
+        if len(out) > limit:
+            raise TooBig()
+        if len(out) > cap:
+            out = rng.sample(out, cap)
+        memo[key] = out
+        return out
+
+    try:
+        return [x for x, _ in go(target, k, 0)]
+    except TooBig:
+        return None
+
+
+def count_occ(dsl, target, prim, k, limit=20000):
+    """Exact number of terms of type target with at most k occurrences of prim
+    (None when above limit); requires type_cycle(dsl, prim) is None."""
+    heads = heads_of(dsl)
+    memo = {}
+
+    def exact(t, j, depth):
+        """number of terms of type t with exactly j occurrences"""
+        key = (repr(t), j)
+        if key in memo:
+            return memo[key]
+        if depth > 60:
+            raise OverflowError()
+        tot = 0
+        for h in heads:
+            args = ends_with(h[2], t)
+            if args is None:
+                continue
+            isp = 1 if (h[0] == 0 and h[1] == prim) else 0
+            if j < isp:
+                continue
+            if not args:
+                tot += 1 if j == isp else 0
+                continue
+            # distribute j - isp occurrences over the arguments
+            dist = {0: 1}
+            for a in args:
+                nd = {}
+                for used, c in dist.items():
+                    for u in range(0, j - isp - used + 1):
+                        e = exact(a, u, depth + 1)
+                        if e:
+                            nd[used + u] = nd.get(used + u, 0) + c * e
+                dist = nd
+            tot += dist.get(j - isp, 0)
+        if tot > limit:
+            raise OverflowError()
+        memo[key] = tot
+        return tot
+
+    try:
+        return sum(exact(target, j, 0) for j in range(k + 1))
+    except OverflowError:
+        return None
